@@ -491,6 +491,159 @@ theorem nd_new_never_panics (m : ND α) : validateN m = .ok () ∨ ∃ e, valida
 
 end
 
+/-! ### loading: `load_prediction_model`, `SmartcoreSpeedGradeModel`, `PredictionModelRecord`
+
+`rf` is the random forest (any function of speed and grade in the model's units). -/
+
+section
+variable {α : Type} [Field α] [LinearOrder α] [IsStrictOrderedRing α] [Lit α] [LawfulLit α]
+
+/-- `SmartcoreSpeedGradeModel::predict` is the forest at the inputs converted to the model's units, tagged
+with the model's rate unit; with the model's own units the inputs are passed through unchanged -/
+theorem smartcore_predict_def (rf : α → α → α) (su : SpeedUnit) (gu : GradeUnit) (ru : EnergyRateUnit)
+    (speed : α) (qsu : SpeedUnit) (grade : α) (qgu : GradeUnit) :
+    smartcorePredict rf su gu ru speed qsu grade qgu
+        = .ok (rf (qsu.convert su speed) (qgu.convert gu grade), ru) ∧
+      smartcorePredict rf su gu ru speed su grade gu = .ok (rf speed grade, ru) := by
+  refine ⟨rfl, ?_⟩
+  simp [smartcorePredict, speed_convert_self, grade_convert_self]
+
+/-- an unreadable model file is a build error for every model type, nested ones included … -/
+theorem load_rejects_unreadable_file (rf : α → α → α) (mt : ModelType α) (su : SpeedUnit) (gu : GradeUnit)
+    (ru : EnergyRateUnit) (ideal adj : Option α) :
+    loadPredictionModel rf false mt su gu ru ideal adj = .err .build :=
+  load_unreadable rf mt su gu ru ideal adj
+
+/-- … and so is an ONNX model type anywhere in the configuration (the feature is off) -/
+theorem load_rejects_onnx (rf : α → α → α) (fileOk : Bool) (mt : ModelType α) (h : mt.hasOnnx = true)
+    (su : SpeedUnit) (gu : GradeUnit) (ru : EnergyRateUnit) (ideal adj : Option α) :
+    loadPredictionModel rf fileOk mt su gu ru ideal adj = .err .build :=
+  load_onnx rf fileOk mt h su gu ru ideal adj
+
+/-- the `Smartcore` arm always loads a readable file: the record carries the configured units, the
+smartcore model, the configured ideal rate — or, when none is configured, a rate that is at most every
+prediction of the 20..79 mph sweep — and the configured adjustment, or 1 -/
+theorem load_smartcore (rf : α → α → α) (su : SpeedUnit) (gu : GradeUnit) (ru : EnergyRateUnit)
+    (ideal adj : Option α) :
+    ∃ r, loadPredictionModel rf true .smartcore su gu ru ideal adj = .ok r ∧
+      r.model = smartcorePredict rf su gu ru ∧ r.speedUnit = su ∧ r.gradeUnit = gu ∧
+      r.energyRateUnit = ru ∧
+      r.realWorldEnergyAdjustment = (match adj with | some a => a | none => 1) ∧
+      (∀ x, ideal = some x → r.idealEnergyRate = x) ∧
+      (ideal = none → ∀ i ∈ sweepSpeeds, ∀ v u,
+        r.model (ofNat i) .milesPerHour (zero : α) .percent = .ok (v, u) → r.idealEnergyRate ≤ v) := by
+  rw [load_smartcore_eq]
+  cases ideal with
+  | some x =>
+    refine ⟨_, rfl, rfl, rfl, rfl, rfl, ?_, ?_, ?_⟩
+    · cases adj <;> simp
+    · intro y hy; cases hy; rfl
+    · intro h; cases h
+  | none =>
+    obtain ⟨v, hv, _, hall⟩ := findMinEnergyRateFrom_spec (smartcorePredict rf su gu ru)
+      (smartcorePredict_total rf su gu ru) sweepSpeeds f64Max
+    refine ⟨{ model := smartcorePredict rf su gu ru, speedUnit := su, gradeUnit := gu, energyRateUnit := ru,
+              idealEnergyRate := v,
+              realWorldEnergyAdjustment := match adj with | some a => a | none => one }, ?_, rfl, rfl, rfl,
+            rfl, ?_, ?_, ?_⟩
+    · simp only [findMinEnergyRate, hv]; rfl
+    · cases adj <;> simp
+    · intro y hy; cases hy
+    · intro _ i hi w u hw; exact hall i hi w u hw
+
+/-- the `Interpolate` arm over a forest builds exactly `InterpolationSpeedGradeModel::new` over that forest
+with the configured speed bounds / bins and grade bounds / bins in their places — so every theorem of the
+speed/grade section (between corners, exact on grid, continuity, clamping, never fails) holds for the
+loaded model with `underlying := rf` -/
+theorem load_interpolate_is_new (rf : α → α → α) (su : SpeedUnit) (gu : GradeUnit) (ru : EnergyRateUnit)
+    (s0 s1 : α) (sb : Nat) (g0 g1 : α) (gb : Nat) (ideal adj : Option α) (r : Record α)
+    (h : loadPredictionModel rf true (.interpolate .smartcore s0 s1 sb g0 g1 gb) su gu ru ideal adj = .ok r) :
+    ∃ m, SpeedGradeModel.new rf su s0 s1 sb gu g0 g1 gb ru = .ok m ∧ r.model = m.predict ∧
+      r.speedUnit = su ∧ r.gradeUnit = gu ∧ r.energyRateUnit = ru ∧
+      r.realWorldEnergyAdjustment = (match adj with | some a => a | none => 1) ∧
+      (∀ x, ideal = some x → r.idealEnergyRate = x) ∧
+      (ideal = none → ∀ i ∈ sweepSpeeds, ∀ v u,
+        r.model (ofNat i) .milesPerHour (zero : α) .percent = .ok (v, u) → r.idealEnergyRate ≤ v) := by
+  rw [load_interpolate_smartcore_eq] at h
+  obtain ⟨m, hm, h⟩ := Res.bind_eq_ok h
+  have htot : ∀ s qsu g qgu, ∃ v u, m.predict s qsu g qgu = .ok (v, u) := by
+    intro s qsu g qgu
+    obtain ⟨v, hv⟩ := predict_never_fails rf su s0 s1 sb gu g0 g1 gb ru m hm s qsu g qgu
+    exact ⟨v, ru, hv⟩
+  refine ⟨m, hm, ?_⟩
+  cases ideal with
+  | some x =>
+    simp only [Res.ok_bind, Res.ok.injEq] at h
+    subst h
+    refine ⟨rfl, rfl, rfl, rfl, ?_, ?_, ?_⟩
+    · cases adj <;> simp
+    · intro y hy; cases hy; rfl
+    · intro h; cases h
+  | none =>
+    obtain ⟨v, hv, _, hall⟩ := findMinEnergyRateFrom_spec m.predict htot sweepSpeeds f64Max
+    simp only [findMinEnergyRate, hv, Res.ok_bind, Res.ok.injEq] at h
+    subst h
+    refine ⟨rfl, rfl, rfl, rfl, ?_, ?_, ?_⟩
+    · cases adj <;> simp
+    · intro y hy; cases hy
+    · intro _ i hi w u hw; exact hall i hi w u hw
+
+/-- and it loads whenever the bounds increase and there are at least two bins per axis; with fewer bins it
+is an error, never a panic -/
+theorem load_interpolate_succeeds (rf : α → α → α) (su : SpeedUnit) (gu : GradeUnit) (ru : EnergyRateUnit)
+    (s0 s1 : α) (sb : Nat) (g0 g1 : α) (gb : Nat) (ideal adj : Option α) :
+    (s0 < s1 → g0 < g1 → 2 ≤ sb → 2 ≤ gb →
+      ∃ r, loadPredictionModel rf true (.interpolate .smartcore s0 s1 sb g0 g1 gb) su gu ru ideal adj = .ok r) ∧
+    (sb < 2 ∨ gb < 2 →
+      ∃ e, loadPredictionModel rf true (.interpolate .smartcore s0 s1 sb g0 g1 gb) su gu ru ideal adj = .err e) := by
+  constructor
+  · intro hs hg hsb hgb
+    obtain ⟨m, hm⟩ := new_ok rf su s0 s1 sb gu g0 g1 gb ru hs hg hsb hgb
+    rw [load_interpolate_smartcore_eq, hm, Res.ok_bind]
+    cases ideal with
+    | some x => exact ⟨_, rfl⟩
+    | none =>
+      have htot : ∀ s qsu g qgu, ∃ v u, m.predict s qsu g qgu = .ok (v, u) := by
+        intro s qsu g qgu
+        obtain ⟨v, hv⟩ := predict_never_fails rf su s0 s1 sb gu g0 g1 gb ru m hm s qsu g qgu
+        exact ⟨v, ru, hv⟩
+      obtain ⟨v, hv, _, _⟩ := findMinEnergyRateFrom_spec m.predict htot sweepSpeeds f64Max
+      simp only [findMinEnergyRate, hv, Res.ok_bind]
+      exact ⟨_, rfl⟩
+  · intro h
+    obtain ⟨e, he⟩ := new_rejects_short rf su s0 s1 sb gu g0 g1 gb ru h
+    rw [load_interpolate_smartcore_eq, he]
+    exact ⟨e, rfl⟩
+
+/-- the interpolated model against the underlying model, both as loaded: at every grid point (given in the
+model's units) the two `PredictionModel::predict` results are the same -/
+theorem loaded_interpolation_matches_underlying_on_grid (rf : α → α → α) (su : SpeedUnit) (gu : GradeUnit)
+    (ru : EnergyRateUnit) (s0 s1 : α) (sb : Nat) (g0 g1 : α) (gb : Nat) (i1 a1 i2 a2 : Option α)
+    (ri ru' : Record α)
+    (hi : loadPredictionModel rf true (.interpolate .smartcore s0 s1 sb g0 g1 gb) su gu ru i1 a1 = .ok ri)
+    (hu : loadPredictionModel rf true .smartcore su gu ru i2 a2 = .ok ru')
+    (xs ys : List α) (hxs : linspace s0 s1 sb = .ok xs) (hys : linspace g0 g1 gb = .ok ys)
+    (i j : Nat) (x y : α) (hx : xs[i]? = some x) (hy : ys[j]? = some y) :
+    ri.model x su y gu = ru'.model x su y gu := by
+  obtain ⟨m, hm, hmod, _⟩ := load_interpolate_is_new rf su gu ru s0 s1 sb g0 g1 gb i1 a1 ri hi
+  obtain ⟨r, hr, hrm, _⟩ := load_smartcore rf su gu ru i2 a2
+  rw [hr] at hu; cases hu
+  rw [hmod, hrm, (smartcore_predict_def rf su gu ru x su y gu).2]
+  exact exact_on_grid rf su s0 s1 sb gu g0 g1 gb ru m hm xs ys hxs hys i j x y hx hy x su y gu
+    (speed_convert_self su x) (grade_convert_self gu y)
+
+/-- `PredictionModelRecord::predict` (no cache): the model's rate, times the real-world adjustment, times
+the distance expressed in the rate's own distance unit; in the rate's own energy unit -/
+theorem record_predict_def (r : Record α) (speed : α) (su : SpeedUnit) (grade : α) (gu : GradeUnit)
+    (distance : α) (du : DistanceUnit) (rate : α) (u : EnergyRateUnit)
+    (h : r.model speed su grade gu = .ok (rate, u)) :
+    r.predict speed su grade gu distance du =
+      .ok (rate * r.realWorldEnergyAdjustment * du.convert r.energyRateUnit.associatedDistanceUnit distance,
+        r.energyRateUnit.associatedEnergyUnit) := by
+  simp [Record.predict, h, Res.bind, createEnergy]
+
+end
+
 /-- regression witnesses of the repaired defects -/
 example : findNearestIndex [(5 : ℚ)] 5 = .err .singleArr := by decide +kernel
 example : (SpeedGradeModel.new (fun (_ _ : ℚ) => (1 : ℚ)) .milesPerHour 0 100 1 .decimal 0 1 5
@@ -535,6 +688,14 @@ example : Interpolator.interpolate (.dn (nd2 [(0 : ℚ), 1, 3] [0, 2] [[0, 2], [
 example : Interpolator.interpolate (.dn (nd2 [(0 : ℚ), 1, 3] [0, 2] [[0, 2], [1, 3], [3, 5]])) [4, 1] .linear
     = .err .outside := by decide +kernel
 example : validateN (nd2 [(0 : ℚ), 1, 3] [0, 2] [[0, 2], [1, 3], [3, 5]]) = .ok () := by decide +kernel
+example : (loadPredictionModel (fun (s g : ℚ) => s + 2 * g) true (.interpolate .smartcore 0 100 3 (-1) 1 3)
+      .milesPerHour .decimal .gallonsGasolinePerMile (some 7) none).bind
+      (fun r => r.predict 25 .milesPerHour 1 .decimal 2 .miles) = .ok (54, .gallonsGasoline) := by
+  decide +kernel
+example : (loadPredictionModel (fun (s g : ℚ) => s + 2 * g) true .smartcore
+      .milesPerHour .decimal .gallonsGasolinePerMile none (some 2)).bind
+      (fun r => .ok (r.idealEnergyRate, r.realWorldEnergyAdjustment)) = .ok ((20 : ℚ), (2 : ℚ)) := by
+  decide +kernel
 example : linspace (0 : ℚ) 1 5 = .ok [0, 1 / 4, 1 / 2, 3 / 4, 1] := by decide +kernel
 
 end C14
